@@ -57,8 +57,9 @@ fn tagset(k: usize) -> Vec<String> {
         // (a tag with an upper-case letter: tags are case-sensitive on every path)
         2 => vec!["B".into()],
         3 => vec!["a".into(), "B".into()],
-        // one tag that reads like the two others written together
-        _ => vec!["aB".into()],
+        // one tag that reads like the two others written together, and one that reads like
+        // `a` with an argument: neither is the tag `a`
+        _ => vec!["aB".into(), "a(1)".into()],
     }
 }
 
